@@ -83,6 +83,7 @@ def parseStmt (t : String) : Option Stmt :=
   | ["gj", k] => k.toNat?.map .gj
   | ["gl"] => some .gl
   | ["wx"] => some .wx
+  | ["ku"] => some .ku
   | ["sc", n] => n.toNat?.map .sc
   | ["scp", n] => n.toNat?.map .scp
   | "fpo" :: fs => if fs.length < 2 then none else (fs.mapM parseFlow).map .flow
